@@ -156,7 +156,7 @@ func Explore(P *Program, entry *ssa.Function, cfg Config) *Result {
 			defer wg.Done()
 			kind := cfg.Solver
 			if kind == "" {
-				kind = "z3"
+				kind = "z3-new"
 			}
 			s, err := NewSolver(kind)
 			if err != nil {
